@@ -244,3 +244,75 @@ def run(ctx):
     tts_ = ctx.fn('MqttClientImpl::transition_to_state')
     rc_ = tts_.calls('MqttClientImpl::reset_state_for_new_connection')
     ctx.ob(len(rc_) == 1 and guarded_any(tts_, rc_[0].bb, [r'^\(new_state == ClientImplState::Connecting\{\}\)$']), 'the per-attempt reset runs exactly when the client enters Connecting', 'attempt-reset|site', loc=tts_.loc(), rule='R-C12-5')
+    # ---- added after the mutation sweep: the waiting cell has a way out. A user DISCONNECT whose write completed (or that failed)
+    # must come back from the engine as the UserInitiatedDisconnect pseudo-error: that error is what makes the client leave Connected.
+    adc = ctx.fn('ProtocolState::apply_disconnect_completion')
+    rs_d = prims.rets_after(adc, [r' is Disconnect$'])
+    ctx.ob(rs_d == {'Err'} and prims.reaches_ret(adc, [r'^!?.* is (?!Disconnect$)[A-Z]'], 'Ok') is not False,
+           'completing a DISCONNECT operation always yields the user-initiated-disconnect error (%s); other packets yield Ok' % sorted(rs_d or []), 'disconnect-completion|result', loc=adc.loc(), rule='R-C12-3')
+    oo = [e for (b, e) in prims.ret_variants(adc) if e[0] == 'agg' and e[2] == 'Err']
+    ctx.ob(len(oo) == 1 and 'new_user_initiated_disconnect' in show(oo[0]), 'the error is UserInitiatedDisconnect (the one the client maps to a normal transition)', 'disconnect-completion|kind', loc=adc.loc(), rule='R-C12-3')
+    for fn_ in ('ProtocolState::complete_operation_as_success', 'ProtocolState::complete_operation_as_failure'):
+        v_ = ctx.fn(fn_)
+        cs_ = v_.calls('ProtocolState::apply_disconnect_completion')
+        uw_ = [c for c in v_.calls('Option::unwrap', 'unwrap') if show(c.arg(0)).startswith('HashMap::remove(self.operations')]
+        tb_ = [q for q in v_.calls('Try::branch', 'branch') if 'ProtocolState::apply_disconnect_completion(' in show(q.arg(0))]
+        ok_ = len(cs_) == 1 and len(uw_) == 1 and len(tb_) == 1 and prims.must_pass(v_, uw_[0].bb, [cs_[0].bb])[0] and prims.must_pass(v_, cs_[0].bb, [tb_[0].bb])[0]
+        ctx.ob(ok_, '%s: every operation that was removed from the table passes the DISCONNECT completion, whose error is propagated with `?`' % short(fn_), 'disconnect-completion|' + short(fn_), loc=v_.loc(), rule='R-C12-3')
+    # ---- added after the mutation sweep: the per-state loops of both drivers leave the state when the client says so and when
+    # the attempt / connection failed (an outcome is reported once, then the state is left: no second outcome for the same attempt)
+    from ..mir import var_init_sites
+    nl_ = 0
+    for v in F.all_fns():
+        p_ = norm(v.path)
+        m_ = re.search(r'ClientRuntimeState::process_(stopped|connecting|connected|pending_reconnect)(::\{closure#0\})?$', p_)
+        if not m_ or (v.f.get('parent') and not v.f.get('coroutine')):
+            continue
+        if v.f.get('parent') is None and any(F.fns[k].get('parent') == v.path and F.fns[k].get('coroutine') for k in F.fns):
+            continue
+        nl_ += 1
+        tag = short(p_, 4)
+        succ_ = v.graph()[0]
+        cot = v.calls('MqttClientImpl::compute_optional_state_transition')
+        ctx.ob(len(cot) == 1, '%s asks the client for a transition at one place in its loop' % tag, 'driver-loop|asks|' + tag, loc=v.loc(), rule='R-C12-2')
+        if len(cot) != 1:
+            continue
+        cb = cot[0].bb
+        errs = v.calls('MqttClientImpl::apply_error')
+        if m_.group(1) != 'connected':
+            somes = prims.edge_nodes_matching(v, [r'^MqttClientImpl::compute_optional_state_transition\(client\) is Some$'])
+            rets = [show(e) for b, e in prims.ret_variants(v) if 'compute_optional_state_transition' in show(e)]
+            ok = bool(somes) and all(cb not in v.reach([e]) for e in somes) and len(rets) == 1 and rets[0].replace('Poll::Ready{0: ', '').startswith('Result::Ok{0: (MqttClientImpl::compute_optional_state_transition(client))@Some.0}')
+            ctx.ob(ok, '%s: an offered transition ends the loop and is the value returned (%s)' % (tag, rets), 'driver-loop|leaves|' + tag, loc=v.loc(), rule='R-C12-2')
+            # asked after every event: the loop's back edge comes only from the None answer
+            nones = prims.edge_nodes_matching(v, [r'^MqttClientImpl::compute_optional_state_transition\(client\) is None$'])
+            pre = v.graph()[1]
+            ok = bool(nones) and all(cb in v.reach([e]) for e in nones)
+            ctx.ob(ok, '%s: without a transition the loop continues (and asks again after the next event)' % tag, 'driver-loop|continues|' + tag, loc=v.loc(), rule='R-C12-2')
+            for c_ in errs:
+                ctx.ob(cb not in v.reach(list(succ_[c_.bb])), '%s: after reporting a failure (apply_error at line %s) the state is left without another loop iteration' % (tag, c_.ln), 'driver-loop|error-leaves|%s|%s' % (tag, show(c_.arg(1))[:60]), loc=v.loc(), rule='R-C12-2')
+        else:
+            defs = [(b, show(e)) for (b, j, e) in var_init_sites(v, 'next_state')] + [(i, show(rve)) for (i, s_, pe, rve) in v.field_writes() if show(pe) == 'next_state']
+            defs = sorted(set(defs))
+            leave = [b for b, x in defs if x == 'Option::Some{0: ClientImplState::PendingReconnect{}}']
+            other = [x for b, x in defs if x not in ('Option::Some{0: ClientImplState::PendingReconnect{}}', 'Option::None{}', 'MqttClientImpl::compute_optional_state_transition(client)')]
+            ctx.ob(not other and any(x == 'MqttClientImpl::compute_optional_state_transition(client)' for b, x in defs), '%s: the next state is PendingReconnect (failure) or what the client offers, nothing else (%s)' % (tag, other), 'driver-loop|next-state-values|' + tag, loc=v.loc(), rule='R-C12-2')
+            gs = [g for g in prims.guard_strs_plain(v, cb) if 'next_state' in g]
+            ctx.ob(bool(gs) and set(gs) == {'next_state is None'}, '%s: the client is asked exactly when no failure already decided the next state (%s)' % (tag, gs), 'driver-loop|asks-when-undecided|' + tag, loc=v.loc(), rule='R-C12-2')
+            tests = set()
+            for en in prims.edge_nodes_matching(v, [r'^next_state is (Some|None)$']):
+                tests.update(v.graph()[1].get(en, []) if isinstance(v.graph()[1], dict) else v.graph()[1][en])
+            for c_ in errs:
+                ok = bool(leave) and bool(tests) and prims.must_pass(v, c_.bb, leave, targets=sorted(tests) + list(v.exits()))[0]
+                ctx.ob(ok, '%s: after reporting a failure (apply_error at line %s) the next state is set to PendingReconnect before the loop condition is evaluated again' % (tag, c_.ln), 'driver-loop|error-leaves|%s|%s|%d' % (tag, show(c_.arg(1))[:60], errs.index(c_)), loc=v.loc(), rule='R-C12-2')
+            # the loop runs while undecided and the value returned is the decided state
+            rets = [show(e).replace('Poll::Ready{0: ', '') for b, e in prims.ret_variants(v) if 'next_state' in show(e)]
+            ctx.ob(len(rets) == 1 and rets[0].startswith('Result::Ok{0: Option::unwrap(next_state)}'), '%s returns the decided next state (%s)' % (tag, rets), 'driver-loop|returns|' + tag, loc=v.loc(), rule='R-C12-2')
+    if ctx.config == 'all':
+        ctx.floor(nl_, 8, 'per-state driver loops (both drivers)')
+    # ---- added after the mutation sweep: the configured values this property starts from reach the options (builder setters)
+    from . import shared as _sh
+    _ns = _sh.builder_setters(ctx, lambda b, m: b == 'StopOptionsBuilder', 'R-C12-3', 'a stop request carries the DISCONNECT the application asked for')
+    if ctx.config == 'all':
+        ctx.floor(_ns, 1, 'builder setters this property depends on')
+
